@@ -350,6 +350,29 @@ func c19Relay(x *fleetExec, e engine.Event) {
 	default:
 		return
 	}
+	// the mapping alone through the streaming mapping builder, re-used (Reset) across relays of the run
+	var mbuf bytes.Buffer
+	if x.reusedMapBuilder == nil {
+		x.reusedMapBuilder = sketchpb.NewIndexMappingBuilder(&mbuf)
+	} else {
+		x.reusedMapBuilder.Reset(&mbuf)
+		x.st.Probe("mapping-builder-reused")
+	}
+	x.lib("IndexMapping.EncodeProto(reused builder)", sig, func() { d.IndexMapping.EncodeProto(x.reusedMapBuilder) })
+	mpb := &sketchpb.IndexMapping{}
+	if err := proto.Unmarshal(mbuf.Bytes(), mpb); err != nil {
+		x.fail("hop-equals", sig, "the bytes of a streamed mapping do not unmarshal: "+err.Error(), "a valid IndexMapping message", fmt.Sprintf("%x", mbuf.Bytes()))
+	}
+	var streamedMapping mapping.IndexMapping
+	x.lib("mapping.FromProto", sig, func() {
+		var derr error
+		streamedMapping, derr = mapping.FromProto(mpb)
+		if derr != nil {
+			x.fail("hop-equals", sig, "mapping.FromProto failed on a streamed mapping: "+derr.Error(), "nil error", derr.Error())
+		}
+	})
+	x.mustEqual(origin, streamedMapping, "hop-equals", sig, "mapping streamed through a re-used builder")
+	x.sameFunction(origin, streamedMapping, "hop-same-function", sig, "mapping streamed through a re-used builder")
 	hops := m.hops + 1
 	what := fmt.Sprintf("after %d hop(s), last form %s", hops, m.form)
 	x.mustEqual(origin, d.IndexMapping, "hop-equals", sig, what)
